@@ -21,8 +21,10 @@ pub enum Op {
     KClear { restart: i32 },
     /// consume the collection(s) into ordered vectors at time now + dt; ends the run
     KExport { dt: i32 },
-    /// bulk build of a giant tree (only on an empty world): keys 0, 2, 4, ... 2(n-1) inserted
-    /// ascending (pat 0) or descending (1), none of them expiring before the end of the time line
+    /// bulk build of a large tree (only on an empty world), no query in between: keys 0, 2, 4, ...
+    /// 2(n-1) inserted ascending (pat % 2 == 0) or descending (1); pat / 2 selects what expires at
+    /// the next tick: 0 nothing ("never"), 1 everything, 2 the middle third (a contiguous block),
+    /// 3 every other key, 4 the lower half (the upper half one tick later)
     KBulk { n: i32, pat: u8 },
 
     // ---- ordered map / set world ----------------------------------------
@@ -56,6 +58,8 @@ pub enum Op {
     /// range query at the current time; take < 0: consume fully, else drop the iterator after `take` items
     SQuery { a: i64, b: i64, take: i32 },
     SClear { restart: i32 },
+    /// n values with one and the same range and expiration (bucket lists of tens of thousands of copies)
+    SBulk { a: i64, b: i64, n: i32, exp: i32 },
 }
 
 impl Op {
@@ -90,6 +94,7 @@ impl Op {
             Op::SIns { .. } => "SIns",
             Op::SQuery { .. } => "SQuery",
             Op::SClear { .. } => "SClear",
+            Op::SBulk { .. } => "SBulk",
         }
     }
 
@@ -124,6 +129,7 @@ impl Op {
             Op::SIns { a, b, exp } => format!("SIns {} {} {}", a, b, exp),
             Op::SQuery { a, b, take } => format!("SQuery {} {} {}", a, b, take),
             Op::SClear { restart } => format!("SClear {}", restart),
+            Op::SBulk { a, b, n, exp } => format!("SBulk {} {} {} {}", a, b, n, exp),
         }
     }
 
@@ -166,6 +172,7 @@ impl Op {
             "SIns" => Op::SIns { a: n(0)?, b: n(1)?, exp: i(2)? },
             "SQuery" => Op::SQuery { a: n(0)?, b: n(1)?, take: i(2)? },
             "SClear" => Op::SClear { restart: i(0)? },
+            "SBulk" => Op::SBulk { a: n(0)?, b: n(1)?, n: i(2)?, exp: i(3)? },
             _ => return Err(format!("unknown op {}", t)),
         })
     }
